@@ -117,6 +117,57 @@ def _flip_selected(e, lines):
     return e
 
 
+def _single_call(arm):
+    """the crate-local call an arm consists of (`{ self.helper(a, b); }` / `{ helper(a, b) }`), else None"""
+    a = arm
+    for _ in range(4):
+        if isinstance(a, dict) and a.get('e') == 'block' and not a.get('unsafe'):
+            if not a['stmts'] and a.get('expr'):
+                a = a['expr']
+                continue
+            if len(a['stmts']) == 1 and not a.get('expr') and a['stmts'][0].get('s') in ('semi', 'expr'):
+                a = a['stmts'][0]['e']
+                continue
+        break
+    if isinstance(a, dict) and a.get('e') in ('mcall', 'call'):
+        res = a.get('resolved') if a['e'] == 'mcall' else (a.get('f') or {}).get('resolved')
+        if isinstance(res, dict) and res.get('local') and res.get('def'):
+            return a, res['def']
+    return None
+
+
+def _inline_arm_helpers(e, hir, inlined_defs):
+    """a cfg-selected arm that only calls a private helper with its own locals as arguments (same names as the helper's parameters) is the
+    helper's body: replace it, so that the unsafe block and its checked twin moved into `replace_unchecked` / `replace_checked` are examined
+    as the two arms of the diamond they still are"""
+    if isinstance(e, list):
+        return [_inline_arm_helpers(x, hir, inlined_defs) for x in e]
+    if not isinstance(e, dict):
+        return e
+    e = {k: _inline_arm_helpers(v, hir, inlined_defs) for k, v in e.items()}
+    if e.get('e') == 'if' and e.get('else') is not None and _is_cfg_lit(e.get('cond')):
+        for arm in ('then', 'else'):
+            sc = _single_call(e[arm])
+            if not sc:
+                continue
+            call, d = sc
+            hh = hir.get(d)
+            if hh is None:
+                continue
+            params = [p.get('name') for p in hh.get('params', []) if isinstance(p, dict) and p.get('p') == 'bind']
+            if len(params) != len(hh.get('params', [])):
+                continue
+            args = ([call['recv']] if call['e'] == 'mcall' else []) + list(call['args'])
+            names = []
+            for a in args:
+                a = _strip_autoref(a)
+                names.append(a.get('name') if isinstance(a, dict) and a.get('e') == 'path' and a.get('res') == 'local' else None)
+            if names == params:
+                e[arm] = hh['body']
+                inlined_defs.add(d)
+    return e
+
+
 def _norm_pair(fd, fu):
     """HIR of both builds with negated selectors (`!cfg!(f)`, `cfg!(not(f))`) rewritten to the positive form"""
     if getattr(fu, '_s20_norm_pair', None) is None:
@@ -134,7 +185,11 @@ def _norm_pair(fd, fu):
             if lines:
                 nu[d] = dict(hu, body=_flip_selected(hu['body'], lines))
                 nd[d] = dict(nd[d], body=_flip_selected(nd[d]['body'], lines))
+        inl_u, inl_d = set(), set()
+        nu = {d: dict(h, body=_inline_arm_helpers(h['body'], nu, inl_u)) for d, h in nu.items()}
+        nd = {d: dict(h, body=_inline_arm_helpers(h['body'], nd, inl_d)) for d, h in nd.items()}
         fu._s20_norm_pair = (nd, nu)
+        fu._s20_inlined_helpers = inl_u
     return fu._s20_norm_pair
 
 
@@ -155,6 +210,31 @@ def _textual_unsafe_blocks():
             txt = _re.sub(r'"(?:\\.|[^"\\])*"', '""', txt)
             n += len(_re.findall(r'\bunsafe\s*\{', txt))
     return n
+
+
+def _only_called_from_feature_arms(fu, fu_hir, d):
+    """every call of d in the (un-normalised) HIR of the feature build is the single statement of the then-arm of a selector that is on"""
+    total = []
+    for dd, h in fu.hir.items():
+        calls = []
+        _find(h['body'], lambda e: e.get('e') in ('mcall', 'call') and ((e.get('resolved') if e.get('e') == 'mcall' else (e.get('f') or {}).get('resolved')) or {}).get('def') == d, calls)
+        for c_, cx in calls:
+            ok = False
+            ifs = [(e, k) for e, k in cx if e.get('e') == 'if']
+            if ifs:
+                e_if, k_ = ifs[-1]
+                cond = e_if.get('cond')
+                neg = 0
+                while isinstance(cond, dict) and cond.get('e') == 'un' and cond.get('op') == 'Not':
+                    cond = cond['a']
+                    neg += 1
+                if _is_cfg_lit(cond):
+                    on = (cond.get('v') == 'true') != (neg % 2 == 1)
+                    taken = 'then' if on else 'else'
+                    sc = _single_call(e_if.get(taken))
+                    ok = k_ == taken and sc is not None and sc[1] == d
+            total.append(ok)
+    return bool(total) and all(total)
 
 
 def s20_unsafe_twins(ctx):
@@ -222,6 +302,11 @@ def s20_unsafe_twins(ctx):
                 continue
             # twin helper: whole function exists in two cfg-selected versions
             if d in twin_helpers:
+                continue
+            # a private helper whose every call is the whole `then` arm of a feature diamond: examined there (inlined above)
+            if d in getattr(fu, '_s20_inlined_helpers', ()) and _only_called_from_feature_arms(fu, fu_hir, d):
+                n_unsafe_in_helpers = r.info.get('unsafe_blocks_in_arm_helpers', 0) + 1
+                r.info['unsafe_blocks_in_arm_helpers'] = n_unsafe_in_helpers
                 continue
             r.violate(key + '|outside-diamond', 'unsafe block in %s is not confined to a cfg!(feature = "unsafe_performance") arm nor to a '
                       'feature-selected twin definition' % d, h['file'], blk.get('l'))
